@@ -202,6 +202,19 @@ class TWorld:
         return out
 
 
+def declared_statistics(ctx, w, tr, stats, tag, suffix=""):
+    """the sampler allocates one array per key of `statistic_types` and writes every returned statistic into it: a key returned
+    but not declared aborts the chain (KeyError) -- also on error paths, which return a flag per error kind"""
+    try:
+        declared = w.ex.getattr(tr, "statistic_types")
+        extra = sorted(k for k in stats if k not in declared)
+    except PyRaise as pr:
+        extra = [f"<statistic_types raised {exc_name(pr.exc)}>"]
+    ctx.run.ob(tag + "/error-and-normal-paths-return-only-declared-statistics" + suffix, core.DISCHARGED if not extra else core.FAILED, "pyvc",
+               detail="" if not extra else f"sample() returned the undeclared statistic(s) {extra}; declared: {sorted(declared) if not isinstance(extra[0], str) or not extra[0].startswith('<') else '?'}",
+               text="keys of the returned statistics dict are a subset of the keys of statistic_types on every path")
+
+
 def is_err(it, exc, name):
     cls = it.module("mici.errors").resolve(name, None)
     return isinstance(exc, Obj) and exc.cls.issub(cls)
@@ -269,6 +282,7 @@ def metropolis(run, it, prop="C01"):
             if not ok:
                 return
             ctx.prove(P + "MetropolisRandomIntegrationTransition.sample/drawn-step-count-positive", N >= 1)
+        declared_statistics(ctx, w, tr, stats, tag)
         nan_stats = sorted(k for k, v in stats.items() if isinstance(v, float) and v != v)
         ctx.run.ob(tag + "/nan-never-reaches-the-statistics", core.DISCHARGED if not nan_stats else core.FAILED, "pyvc",
                    detail="" if not nan_stats else f"statistics {nan_stats} are NaN (a NaN Hamiltonian must be reported as acceptance probability 0; NaN statistics poison the step-size adapter)",
@@ -841,6 +855,7 @@ def dynamic_sample(run, it):
         acs = stats["accept_stat"]
         acs = to_real(acs) if not isinstance(acs, float) else z3.RealVal(str(acs))
         ctx.prove(tag + "/accept-stat" + c, acs == (z3.RealVal(0) if flags else av), text="accept_stat == mean acceptance probability (0 when an error flag is set)")
+        declared_statistics(ctx, w, tr, stats, tag, c)
         ok = "sum_metrop_accept_prob" not in stats
         ctx.run.ob(tag + "/internal-accumulator-not-reported" + c, core.DISCHARGED if ok else core.FAILED, "pyvc")
         ctx.run.ob(tag + "/returns-a-state-of-the-tree" + c, core.DISCHARGED if isinstance(out, Obj) and out.cls is w.cs else core.FAILED, "pyvc")
